@@ -97,6 +97,19 @@ func (m *Machine) FormatUint(x *Term) Str {
 		return ConcStr(strconv.FormatUint(x.Val, 10), s)
 	}
 	x = s.ZExt(x, 64)
+	memo, _ := m.Extra["fmtuint"].(map[*Term]Str)
+	if memo == nil {
+		memo = map[*Term]Str{}
+		m.Extra["fmtuint"] = memo
+	}
+	if r, ok := memo[x]; ok { // the same value renders to the same digits
+		return r
+	}
+	defer func(key *Term) {
+		if r := recover(); r != nil {
+			panic(r)
+		}
+	}(x)
 	k := 20
 	for d := 1; d < 20; d++ {
 		if m.Branch(s.ULt(x, s.Const(64, pow10[d]))) {
@@ -130,6 +143,7 @@ func (m *Machine) FormatUint(x *Term) Str {
 	for i := 0; i < k; i++ {
 		out[i] = s.Add(digs[k-1-i], s.Const(8, '0'))
 	}
+	memo[x] = Str{out}
 	return Str{out}
 }
 
